@@ -246,6 +246,7 @@ func verifyContract(prog *Program, prop string, fn *ssa.Function, c *FuncContrac
 		}
 		e.contract = c
 		e.pkg = fn.Pkg
+		e.topFn = fn
 		func() {
 			defer func() {
 				if r := recover(); r != nil {
@@ -326,7 +327,7 @@ func (e *Enc) verifyFunc(fn *ssa.Function, c *FuncContract) {
 		}
 	}
 	for _, cs := range c.Cuts {
-		if !e.prog.anchorExists(fn, cs.Anchor) {
+		if !e.prog.anchorExists(fn, cs.Anchor, cs.Before) {
 			panic(unsupported("anchor not found: " + cs.Anchor))
 		}
 	}
